@@ -416,14 +416,20 @@ var hdrRe = regexp.MustCompile(`^goroutine \d+ \[([^\],]+)`)
 func deadlocked(dump string) bool {
 	relevant, blocked := 0, 0
 	for _, g := range strings.Split(dump, "\n\n") {
-		if !strings.Contains(g, "B1NARY-GR0UP/originium") && !strings.Contains(g, "checks/conc.") {
-			continue
-		}
 		if strings.Contains(g, "goroutineDump") {
 			continue // the watchdog itself
 		}
-		m := hdrRe.FindStringSubmatch(g)
+		m := hdrRe.FindStringSubmatch(strings.TrimLeft(g, "\n"))
 		if m == nil {
+			continue
+		}
+		if !strings.Contains(g, "B1NARY-GR0UP/originium") && !strings.Contains(g, "checks/conc.") {
+			// a goroutine of a library the engine uses (the s2 writer compresses blocks on
+			// goroutines of its own): if it can run, whoever waits for it is not stuck
+			switch m[1] {
+			case "runnable", "running", "syscall":
+				return false
+			}
 			continue
 		}
 		relevant++
